@@ -15,14 +15,15 @@ COVERAGE (clause of the property / entry point / option -> generator stream -> C
                 sample_poly / sample_hising / sample_hubo (raw keys, constants)         kind poly `entry`
                 sample_dqm, sample_cqm (rtol / atol given or defaulted)                 kind dqm, kind cqm
  samplers       ExactSolver, RandomSampler (num_reads given / signature default, seed, initial_states),
-                SimulatedAnnealingSampler (num_reads, num_sweeps, beta_range as tuple/list, documented
-                ValueErrors -> CSaCall), IdentitySampler (initial_states raw dict list / raw array of every
+                SimulatedAnnealingSampler (num_reads, num_sweeps incl. a single sweep, beta_range as tuple/list/np.float64 items,
+                documented ValueErrors and TypeErrors in source order -> CSaCall / CSaOutcome), IdentitySampler (initial_states raw dict list / raw array of every
                 dtype / SampleSet, of the same or the other vartype, missing / foreign labels, values showing
                 no vartype; generator none / tile / random / unknown; num_reads None / 0 / truncating / tiling
                 with remainder -> CParse on the argument AS GIVEN), NullSampler (-> CNull)       kind bqm `base`
                 single-method samplers (sample_ising only / sample_qubo only), stacked up to 3 deep, integer
                 energy dtype (-> CMixin per level, CStack for the whole stack)                   kind mixin
- composites     Truncate (n, sorted_by, aggregate), Tracking (copy), Structure (complete / partial)   kind bqm `layers`
+ composites     Truncate (n, sorted_by None / 'energy' / 'num_occurrences', aggregate), Tracking (copy),
+                Structure (complete / partial; nodelist as list or tuple, edges as tuples or 2-lists in either orientation)   kind bqm `layers`
                 HigherOrder (penalty_strength, keep_penalty_variables, discard_unsatisfied, defaults),
                 PolyScale (scalar, bias_range, poly_range, ignored_terms, zero bounds), PolyTruncate,
                 PolyFixedVariable (fixed_variables None / empty / partial / all)                   kind poly `layers`, `hoc`
@@ -40,7 +41,7 @@ COVERAGE (clause of the property / entry point / option -> generator stream -> C
                 rejections drawn with probability 0.7) so that every rejection is met several times per quick run
  NOT reached    real pending Futures below composites that read their child's answer (would block for ever);
                 SampleSet.change_vartype(inplace=False) (pinned statically only: Gen_Deferred copy branch);
-                num_sweeps=1 (corpus/C07/sa_single_sweep.json: ZeroDivisionError, reported); TypeError rejections.
+                IdentitySampler's TypeError for a non-Integral num_reads; bool arguments (Python counts them as int).
 """
 import itertools
 import warnings
@@ -440,7 +441,7 @@ def gen_quad_problem(rng, entry, nmax=6, nmin=0):
     return {"vartype": vt, "vars": [enc_label(l) for l in labels], "off": off, "lin": lin, "quad": quad}
 
 
-def gen_sa_opts(rng, kw, p_bad=0.15):
+def gen_sa_opts(rng, kw, p_bad=0.15, typed=False):
     kw["num_reads"] = rng.randint(1, 3)
     kw["num_sweeps"] = rng.randint(2, 6)
     kw["pyseed"] = rng.randint(0, 2 ** 31)
@@ -449,8 +450,21 @@ def gen_sa_opts(rng, kw, p_bad=0.15):
     if rng.random() < 0.4:
         kw["beta_range"] = rng.choice([["1/2", "2"], ["1", "1"], ["1/4", "8"], ["2", "1/2"]])
         kw["beta_form"] = rng.choice(['tuple', 'list'])
-    # num_sweeps=1 is NOT drawn: ising_simulated_annealing divides by (num_sweeps - 1.) and raises
-    # ZeroDivisionError (explicit beta_range / all-zero problem) - kept as corpus/C07/sa_single_sweep.json
+    if rng.random() < 0.15:
+        kw["num_sweeps"] = 1         # a single sweep (regression: corpus/C07/sa_single_sweep.json)
+    if typed and rng.random() < 0.3:
+        # arguments of the wrong TYPE (TypeError), possibly together with a wrong value elsewhere: the
+        # FIRST failing test of the source decides
+        t = {}
+        for k, opts in (("num_reads", ['float', 'str', 'npint']), ("num_sweeps", ['float', 'str', 'npint']),
+                        ("beta", ['str', 'set', 'itemstr', 'itemnone', 'npfloats'])):
+            if rng.random() < 0.4:
+                t[k] = rng.choice(opts)
+        if t.get("beta") and "beta_range" not in kw:
+            kw["beta_range"] = ["1/2", "2"]
+            kw["beta_form"] = rng.choice(['tuple', 'list'])
+        if t:
+            kw["sa_types"] = t
     if rng.random() < p_bad:
         bad = rng.choice(['reads0', 'readsneg', 'sweeps0', 'sweepsneg', 'beta0', 'betaneg', 'beta3', 'beta1'])
         kw["sa_bad"] = bad
@@ -506,8 +520,11 @@ def gen_bqm_layers(rng):
     for _ in range(rng.choice([0, 0, 1, 1, 2, 3])):
         t = rng.choice(['trunc', 'trunc', 'track', 'struct'])
         if t == 'trunc':
-            layers.append({"t": t, "n": rng.choice([1, 1, 2, 3, 5, 100]), "sorted_by": rng.choice(['energy', 'energy', None]),
+            layers.append({"t": t, "n": rng.choice([1, 1, 2, 3, 5, 100]),
+                           "sorted_by": rng.choice(['energy', 'energy', 'energy', None, None, 'num_occurrences']),
                            "aggregate": rng.random() < 0.3})
+            if layers[-1]["sorted_by"] == 'num_occurrences':
+                layers[-1]["aggregate"] = rng.random() < 0.7      # any other record field may be the sort key
         elif t == 'track':
             layers.append({"t": t, "copy": rng.random() < 0.5})
         else:
@@ -643,7 +660,8 @@ def gen_poly_layers(rng, poly, base_is_hoc):
     rng.shuffle(kinds)
     for t in kinds[:rng.choice([0, 1, 1, 2, 3])]:
         if t == 'ptrunc':
-            layers.append({"t": t, "n": rng.choice([1, 2, 3, 6, 100]), "sorted_by": rng.choice(['energy', 'energy', None]),
+            layers.append({"t": t, "n": rng.choice([1, 2, 3, 6, 100]),
+                           "sorted_by": rng.choice(['energy', 'energy', 'energy', None, None, 'num_occurrences']),
                            "aggregate": rng.random() < 0.3})
         elif t == 'fixed':
             layers.append({"t": t})
@@ -659,7 +677,7 @@ def gen_case(rng, tier):
         entry = rng.choice(['sample', 'ising', 'qubo'])
         c = {"kind": "bqm", "entry": entry, "prob": gen_quad_problem(rng, entry, nmax=2, nmin=1), "layers": [], "base": "sa"}
         c["prob"].pop("h_list", None)
-        gen_sa_opts(rng, c, p_bad=0.7)
+        gen_sa_opts(rng, c, p_bad=0.5, typed=True)
         return c
     if kind == 'bqm':
         entry = rng.choice(['sample', 'sample', 'ising', 'qubo'])
@@ -825,7 +843,8 @@ def unjson_key(s):
 # ----------------------------------------------------------------------------
 
 def trunc_term(l):
-    return "(%s %s %s)" % ("KTruncU" if l["sorted_by"] is None else "KTruncS", cbool(bool(l.get("aggregate"))), cnat(l["n"]))
+    k = {None: "KTruncU", 'energy': "KTruncS", 'num_occurrences': "KTruncOcc"}[l["sorted_by"]]
+    return "(%s %s %s)" % (k, cbool(bool(l.get("aggregate"))), cnat(l["n"]))
 
 
 def dom_term(vt):
@@ -964,6 +983,21 @@ def make_bqm_base(c, variables, vt):
         if c.get("beta_range") is not None:
             br = [float(Fraction(x)) for x in c["beta_range"]]
             kw["beta_range"] = tuple(br) if c.get("beta_form") == 'tuple' else br
+        ty = c.get("sa_types") or {}
+        for k in ("num_reads", "num_sweeps"):
+            if ty.get(k) == 'float':
+                kw[k] = float(kw[k])
+            elif ty.get(k) == 'str':
+                kw[k] = str(kw[k])
+            elif ty.get(k) == 'npint':
+                kw[k] = np.int64(kw[k])           # not an instance of int
+        if ty.get("beta") and "beta_range" in kw:
+            br = list(kw["beta_range"])
+            mk = tuple if c.get("beta_form") == 'tuple' else list
+            kw["beta_range"] = {'str': lambda: "12", 'set': lambda: set(br),
+                                'itemstr': lambda: mk(br[:-1] + [str(br[-1])]),
+                                'itemnone': lambda: mk([None] + br[1:]),
+                                'npfloats': lambda: mk(np.float64(x) for x in br)}[ty["beta"]]()   # np.float64 IS a float
     elif b == 'null':
         s = dimod.NullSampler()
     else:
@@ -982,6 +1016,9 @@ def make_structure(l, variables):
     import random
     variables = list(variables)
     if not l.get("partial"):
+        if l["sseed"] % 3 == 0:
+            # other accepted forms: nodelist as a tuple, edges as 2-lists / in either orientation
+            return tuple(variables), [[v, u] if i % 2 else [u, v] for i, (u, v) in enumerate(itertools.combinations(variables, 2))]
         return variables, list(itertools.combinations(variables, 2))
     r = random.Random(l["sseed"])
     nodes = [v for v in variables if r.random() < 0.85] + (['node_x'] if r.random() < 0.3 else [])
@@ -1047,10 +1084,14 @@ def run_bqm(c):
     except BinaryQuadraticModelStructureError:
         raised = 'structure'
     except ZeroDivisionError as e:
-        if c["base"] == 'sa' and c.get("num_sweeps") == 1:
-            return {"coq": None, "nontrivial": False, "features": dict(feats, sa_single_sweep_raises=True),
-                    "py_fail": "SimulatedAnnealingSampler raised ZeroDivisionError for the valid option num_sweeps=1: " + str(e)}
+        if c["base"] == 'sa':
+            return {"coq": None, "nontrivial": False, "features": dict(feats, sa_zero_division=True),
+                    "py_fail": "SimulatedAnnealingSampler raised ZeroDivisionError for valid options: " + str(e)}
         raise
+    except TypeError:
+        if c["base"] != 'sa' or not c.get("sa_types"):
+            raise
+        raised = 'TypeError'
     except ValueError as e:
         if c["base"] not in ('identity', 'random', 'sa'):
             raise
@@ -1153,8 +1194,27 @@ def run_bqm(c):
                 terms.append(f"(CFromRows (PQuad {pterm}) {bvl} {res_term(T, base_seen)})")
         if c["base"] == 'sa':
             brt = "None" if c.get("beta_range") is None else "(Some %s)" % clist([cq(Fraction(x)) for x in c["beta_range"]])
-            terms.append(f"(CSaCall {cz(c['num_reads'])} {brt} {cz(c['num_sweeps'])} {cbool(raised == 'ValueError')})")
-            feats["sa_rejected"] = raised == 'ValueError'
+            ty = c.get("sa_types") or {}
+            if not ty:
+                terms.append(f"(CSaCall {cz(c['num_reads'])} {brt} {cz(c['num_sweeps'])} {cbool(raised == 'ValueError')})")
+
+            def iarg(k):
+                return "ANotInt" if ty.get(k) in ('float', 'str', 'npint') else f"(AInt {cz(c[k])})"
+            if c.get("beta_range") is None:
+                bt = "BDefault"
+            elif ty.get("beta") in ('str', 'set'):
+                bt = "BNotSeq"
+            else:
+                items = [f"(BNum {cq(Fraction(x))})" for x in c["beta_range"]]
+                if ty.get("beta") == 'itemstr':
+                    items[-1] = "BNotNum"
+                elif ty.get("beta") == 'itemnone':
+                    items[0] = "BNotNum"
+                bt = f"(BSeq {clist(items)})"
+            seen = {None: 'Accept', 'structure': 'Accept', 'ValueError': 'RaiseValueError', 'TypeError': 'RaiseTypeError'}[raised]
+            terms.append(f"(CSaOutcome {iarg('num_reads')} {bt} {iarg('num_sweeps')} {seen})")
+            feats["sa_rejected"] = raised
+            feats["sa_types"] = bool(ty)
         if c["base"] in ('identity', 'random'):
             pass
         elif raised is None or base_seen is not None:
